@@ -4,7 +4,7 @@
 //!     every side (so nothing crosses a canvas edge for |dx|,|dy| <= 40).  Renders with M and with
 //!     translate(dx,dy)*M and compares pixel (x,y) of the first with (x+dx,y+dy) of the second.
 //!     Also reports whether the two layer traces are translates of each other.
-use crate::c14::{count_layers, traced_render};
+use crate::c14::{count_layers, frame_bad, traced_render, ulp_flip};
 use crate::dump::esc;
 use crate::util::*;
 
@@ -33,6 +33,17 @@ fn layer_fields(ev: &str) -> Option<(Vec<f64>, Vec<i64>)> {
     }
 }
 
+fn max_of(ev: &str) -> Option<Vec<i64>> {
+    let b = ev.find("\"max\":[")? + 7;
+    let e = ev[b..].find(']')? + b;
+    let v: Vec<i64> = ev[b..e].split(',').filter_map(|x| x.parse().ok()).collect();
+    if v.len() == 4 {
+        Some(v)
+    } else {
+        None
+    }
+}
+
 fn op_shift(payload: &str) -> String {
     let f: Vec<&str> = payload.split('\t').collect();
     if f.len() < 5 {
@@ -43,7 +54,8 @@ fn op_shift(payload: &str) -> String {
         Ok(t) => t,
         Err(e) => return format!("{{\"skip\":\"parse\",\"error\":{}}}", esc(&e)),
     };
-    let p: Vec<f32> = f[2].split(':').filter_map(|x| x.parse().ok()).collect();
+    let native = f[2].starts_with("native:");
+    let p: Vec<f32> = f[2].trim_start_matches("native:").split(':').filter_map(|x| x.parse().ok()).collect();
     if p.len() != 3 {
         return "{\"error\":\"bad view\"}".into();
     }
@@ -57,16 +69,29 @@ fn op_shift(payload: &str) -> String {
     if !(bb.width().is_finite() && bb.height().is_finite()) || bb.width() > 1e6 || bb.height() > 1e6 {
         return "{\"skip\":\"huge-bbox\"}".into();
     }
-    let m = 900.0f32;
-    if bb.width() * s > m {
-        s = m / bb.width();
+    let (w, h, tx, ty);
+    if native {
+        // canvas = document size * s; content may cross the canvas edges
+        w = (tree.size().width() * s).ceil().max(1.0) as u32;
+        h = (tree.size().height() * s).ceil().max(1.0) as u32;
+        if w > 1500 || h > 1500 {
+            return "{\"skip\":\"huge-size\"}".into();
+        }
+        tx = fx;
+        ty = fy;
+    } else {
+        let m = 900.0f32;
+        if bb.width() * s > m {
+            s = m / bb.width();
+        }
+        if bb.height() * s > m {
+            s = m / bb.height();
+        }
+        w = (bb.width() * s).ceil() as u32 + 2 * MARGIN as u32 + 1;
+        h = (bb.height() * s).ceil() as u32 + 2 * MARGIN as u32 + 1;
+        tx = MARGIN + fx - bb.x() * s;
+        ty = MARGIN + fy - bb.y() * s;
     }
-    if bb.height() * s > m {
-        s = m / bb.height();
-    }
-    let w = (bb.width() * s).ceil() as u32 + 2 * MARGIN as u32 + 1;
-    let h = (bb.height() * s).ceil() as u32 + 2 * MARGIN as u32 + 1;
-    let (tx, ty) = (MARGIN + fx - bb.x() * s, MARGIN + fy - bb.y() * s);
     let ts_a = tiny_skia::Transform::from_row(s, 0.0, 0.0, s, tx, ty);
     // translate(dx,dy) * M, computed the way a caller would: post_translate
     let ts_b = ts_a.post_translate(dx as f32, dy as f32);
@@ -77,7 +102,7 @@ fn op_shift(payload: &str) -> String {
     let (pb, eb) = traced_render(&tree, w, h, ts_b).unwrap();
 
     // compare A(x,y) with B(x+dx,y+dy) over the window where both are on the canvas
-    let (mut n0, mut n1, mut n8, mut n64, mut mx, mut nonblank) = (0usize, 0usize, 0usize, 0usize, 0u8, 0usize);
+    let (mut n0, mut n1, mut n8, mut n32, mut n64, mut mx, mut nonblank) = (0usize, 0usize, 0usize, 0usize, 0usize, 0u8, 0usize);
     let mut dbox = (u32::MAX, u32::MAX, 0u32, 0u32);
     let mut first: Option<(u32, u32)> = None;
     let mut outside = 0usize; // painted pixels of A or B outside the common window (content left the canvas)
@@ -110,6 +135,9 @@ fn op_shift(payload: &str) -> String {
                 }
                 dbox = (dbox.0.min(x as u32), dbox.1.min(y as u32), dbox.2.max(x as u32), dbox.3.max(y as u32));
             }
+            if d > 32 {
+                n32 += 1;
+            }
             if d > 64 {
                 n64 += 1;
             }
@@ -133,9 +161,30 @@ fn op_shift(payload: &str) -> String {
             }
         }
     }
+    // class predicate `layer-origin-negative`: a layer with filters or clamped to max_bbox (content reaches the
+    // layer's edge) is placed at a negative x or y in either rendering
+    let neg_origin = ea.iter().chain(eb.iter()).any(|e| {
+        if !e.starts_with("{\"ev\":\"layer\"") {
+            return false;
+        }
+        match layer_fields(e) {
+            Some((_, ib)) => {
+                let filtered = !e.contains("\"filters\":0,");
+                let mx = max_of(e);
+                let clamped = match mx {
+                    Some(m) => ib[0] <= m[0] || ib[1] <= m[1] || ib[0] + ib[2] >= m[0] + m[2] || ib[1] + ib[3] >= m[1] + m[3],
+                    None => false,
+                };
+                (ib[0] < 0 || ib[1] < 0) && (filtered || clamped)
+            }
+            None => false,
+        }
+    });
+    let fbad = frame_bad(&tree, w, h, ts_a) + frame_bad(&tree, w, h, ts_b);
+    let flip = ulp_flip(&ea, &eb);
     let mut out = format!(
-        "{{\"n0\":{},\"n1\":{},\"n8\":{},\"n64\":{},\"max\":{},\"nonblank\":{},\"outside\":{},\"layersA\":{},\"layersB\":{},\"moved\":{},\"not_moved\":{},\"W\":{},\"H\":{},\"scale\":{},\"ts\":[{},{},{},{},{},{}]",
-        n0, n1, n8, n64, mx, nonblank, outside, count_layers(&ea), count_layers(&eb), moved, not_moved, w, h, s,
+        "{{\"neg_origin\":{},\"frame_bad\":{},\"ulp_flip\":{},\"filter_layers\":{},\"n0\":{},\"n1\":{},\"n8\":{},\"n32\":{},\"n64\":{},\"max\":{},\"nonblank\":{},\"outside\":{},\"layersA\":{},\"layersB\":{},\"moved\":{},\"not_moved\":{},\"W\":{},\"H\":{},\"scale\":{},\"ts\":[{},{},{},{},{},{}]",
+        neg_origin, fbad, flip, ea.iter().filter(|e| e.starts_with("{\"ev\":\"filter\"")).count(), n0, n1, n8, n32, n64, mx, nonblank, outside, count_layers(&ea), count_layers(&eb), moved, not_moved, w, h, s,
         ts_a.sx, ts_a.ky, ts_a.kx, ts_a.sy, ts_a.tx, ts_a.ty
     );
     if let Some((x, y)) = first {
